@@ -978,4 +978,318 @@ theorem xorCl {inputs : List String} {ρ : Env} {σ0 : FState} {r : String} (amb
   | .imp _ _ :: as => fun hov _ _ => by simp [overInputsList, overInputs] at hov
 end
 
+/-! ### the statement loop for one definition, and `compile` with `uncompute = true` -/
+
+theorem addInputs_gc : ∀ (ns : List String) {u : Unit} {s s' : CState},
+    (addInputs ns).run s = .ok (u, s') → s'.qc.gatesComputed = s.qc.gatesComputed
+  | [], u, s, s', h => by
+    unfold addInputs at h
+    obtain ⟨_, rfl⟩ := run_pure_ok.mp h
+    rfl
+  | n :: ns, u, s, s', h => by
+    unfold addInputs at h
+    obtain ⟨u1, s1, hd, h1⟩ := run_bind_ok.mp h
+    obtain ⟨i0, hadd⟩ := run_discard_ok.mp hd
+    have hs1 := (addQubit_run hadd).2
+    have h2 := addInputs_gc ns h1
+    rw [hs1] at h2
+    exact h2
+
+theorem mapQubit_gc {name : String} {index : Nat} {promote : Bool} {u : Unit} {s s' : CState}
+    (h : (mapQubit name index promote).run s = .ok (u, s')) :
+    s'.qc.gatesComputed = s.qc.gatesComputed := by
+  unfold mapQubit at h
+  dsimp only at h
+  obtain ⟨qc, s1, hq, h⟩ := run_bind_ok.mp h
+  obtain ⟨rfl, rfl⟩ := getQC_run hq
+  split at h
+  · obtain ⟨u2, s3, hm1, hmatch⟩ := run_bind_ok.mp h
+    have := modQC_run hm1; subst this
+    split at hmatch
+    · obtain ⟨u3, s4, hm2, hm3⟩ := run_bind_ok.mp hmatch
+      have := modQC_run hm2; subst this
+      have := modQC_run hm3; subst this
+      rfl
+    · have := modQC_run hmatch; subst this
+      rfl
+  · have := modQC_run h; subst this
+    rfl
+
+theorem removeIdentities_free {u : Unit} {s s' : CState} (h : removeIdentities.run s = .ok (u, s')) :
+    s'.qc.free = s.qc.free := by
+  unfold removeIdentities at h
+  obtain ⟨qc, s1, hq, h1⟩ := run_bind_ok.mp h
+  obtain ⟨rfl, rfl⟩ := getQC_run hq
+  have := modQC_run h1; subst this
+  rfl
+
+theorem mem_removeIdentitiesList {gs : List AGate} {g : AGate} (h : g ∈ removeIdentitiesList gs) : g ∈ gs := by
+  unfold removeIdentitiesList at h
+  rcases removeIdentitiesLoop_subset _ _ _ g h with h' | h'
+  · exact h'
+  · cases h'
+
+/-- the top-level expression of the single definition, compiled with `sym = some r` -/
+theorem topExpr_cl {inputs : List String} {ρ : Env} {σ0 : FState} {r : String} (amb : Amb inputs σ0 r)
+    {e : BExp} (hov : overInputs inputs e = true) (htl : treeLike e = true) (hso : smallOr e = true)
+    {iret : Nat} {s t : CState}
+    (h : (compileExpr e none (some r)).run s = .ok (iret, t)) (hp : Pre inputs ρ σ0 s)
+    (hex : s.expq = []) (hinp : s.inputs = inputs) :
+    Cl inputs.length NoP (· = iret) s t ∧
+      ((isSym e = false ∨ r.startsWith "_ret" = true) → inputs.length ≤ iret) := by
+  cases hs : isSym e with
+  | true =>
+    cases e with
+    | sym n =>
+      have hn : n ∈ inputs := by simpa [overInputs] using hov
+      obtain ⟨i, hi⟩ := idx_of_mem hn
+      have hbi := hp.bind i n hi
+      have hil := (mem_of_getElem?' hi).2
+      unfold compileExpr at h
+      unfold compileSymbol at h
+      dsimp only at h
+      split at h
+      · next hret =>
+        rw [run_get_bind_ok] at h
+        split at h
+        · obtain ⟨a0, s2, hadd, h2⟩ := run_bind_ok.mp h
+          obtain ⟨ha0, hs2⟩ := addQubit_run hadd
+          obtain ⟨stA, _, _, _, _⟩ := addQubit_ok (B := (· = r)) hadd hp.good (Or.inl rfl)
+          obtain ⟨q, s3, hl, h3⟩ := run_bind_ok.mp h2
+          obtain ⟨rfl, hq, _⟩ := lookup_ok hl stA.good
+          obtain ⟨u, s4, hcx, hpure⟩ := run_bind_ok.mp h3
+          obtain ⟨hiret, hst⟩ := run_pure_ok.mp hpure
+          subst hst; subst hiret
+          have hqi : q = i := by
+            rw [hs2] at hq
+            change dictGet? (dictSet s.qc.qmap r s.qc.numQubits) n = some q at hq
+            rw [dictGet?_dictSet_ne (amb.fresh n hn).1, hbi] at hq
+            exact (Option.some.inj hq).symm
+          subst hqi
+          have hge : inputs.length ≤ iret := by rw [ha0]; exact hp.nin
+          have cla : Cl inputs.length NoP NoP s s3 := by
+            rw [hs2]; exact Cl.quiet rfl rfl (fun _ h => h) (fun _ h => h)
+          have clc := cx_cl (n := inputs.length) hcx hge
+          refine ⟨Cl.trans cla clc (fun _ h => h.elim) (fun _ _ h => h.elim) ?_ (fun q _ h => Or.inr h), fun _ => hge⟩
+          intro c hc
+          have : c = q := by simpa using hc
+          subst this
+          exact Or.inl hil
+        · next hc =>
+          exfalso; apply hc
+          rw [hinp]; simpa using hn
+      · next hret =>
+        obtain ⟨qc, s1, hq, h⟩ := run_bind_ok.mp h
+        obtain ⟨rfl, rfl⟩ := getQC_run hq
+        split at h
+        · obtain ⟨hiret, hst⟩ := run_pure_ok.mp h
+          subst hst
+          refine ⟨Cl.refl _, fun hc => ?_⟩
+          rcases hc with hc | hc
+          · simp at hc
+          · exact absurd hc hret
+        · exact (run_throw_ok.mp h).elim
+    | _ => simp [isSym] at hs
+  | false =>
+    have hdis := distinctB_iff.mp htl
+    have hc0 : ∀ p ∈ s.expq, ∀ c ∈ compSubs e, (p.1 == c) = false := by
+      intro p hp'; rw [hex] at hp'; cases hp'
+    have hss : isSym e = true → (none : Option Nat) = none ∧ some r = none := by
+      intro hs'; rw [hs] at hs'; cases hs'
+    obtain ⟨hpt, _, _, _⟩ := expr_pre (ρ := ρ) amb hov hdis h hp hc0 (by intro d hd; cases hd)
+      (by intro y hy; cases hy; rfl) hss
+    obtain ⟨cl, hres⟩ := exprCl (ρ := ρ) amb e hov hdis hso none (some r) h hp hc0 (by intro d hd; cases hd)
+      (by intro y hy; cases hy; rfl) hss
+    refine ⟨cl, fun _ => ?_⟩
+    rcases hres rfl with h' | h'
+    · rw [hs] at h'; cases h'.2
+    · exact hpt.sge.1 _ h'
+
+theorem mem_of_map_gcore {U L : List AGate} (h : U.map gcore = L.map gcore) {g : AGate} (hg : g ∈ U) :
+    ∃ g' ∈ L, g'.cls = g.cls ∧ g'.wires = g.wires := by
+  have hm : gcore g ∈ U.map gcore := List.mem_map.mpr ⟨g, hg, rfl⟩
+  rw [h] at hm
+  obtain ⟨g', hg', e⟩ := List.mem_map.mp hm
+  exact ⟨g', hg', congrArg Prod.fst e, congrArg Prod.snd e⟩
+
+/-- **one definition `r = e` of the fragment without De Morgan `Or`, `uncompute = true`, `r` requested**:
+after every successful run of `compile`, on every input every qubit other than the one mapped to `r`
+is back to its initial value; that qubit is not an argument qubit unless `e` is a bare symbol aliased
+under a non-return name; it is never a control; no gate targets an argument qubit -/
+theorem compile_single_clean {inputs : List String} {r : String} {e : BExp} {rets : List String}
+    {unc : Bool} {cs : List Nat} {s : CState}
+    (h : (compile inputs [(r, e)] (some rets) unc).run { choices := cs } = .ok ((), s))
+    (hunc : unc = true) (hr : r ∈ rets)
+    (hnd : inputs.Nodup) (hfresh : ∀ n ∈ inputs, n ≠ r ∧ reservedName n = false)
+    (hov : overInputs inputs e = true) (htl : treeLike e = true) (hso : smallOr e = true)
+    (x : List Bool) (hx : x.length = inputs.length) :
+    ∃ q, dictGet? s.qc.qmap r = some q ∧
+      (∀ p, p ≠ q →
+        (runClassical s.qc.gates.toList (initState x s.qc.numQubits)).getD p false =
+          (initState x s.qc.numQubits).getD p false) ∧
+      ((isSym e = false ∨ r.startsWith "_ret" = true) → inputs.length ≤ q) ∧
+      (inputs.length ≤ q → retNeverControl s.qc.gates.toList q = true) ∧
+      (∀ g ∈ s.qc.gates.toList, inputs.length ≤ g.target) := by
+  unfold compile at h
+  obtain ⟨u0, s0, hmod, h1⟩ := run_bind_ok.mp h
+  have := run_modify_ok.mp hmod; subst this
+  have hg0 : Good { choices := cs, inputs := inputs } := good_init cs inputs
+  obtain ⟨u1, s1, hin, h2⟩ := run_bind_ok.mp h1
+  obtain ⟨st1, hn1, _, hpos⟩ := addInputs_ok inputs hin hg0
+  obtain ⟨ha1, hf1, hm1⟩ := addInputs_scratch inputs hin
+  obtain ⟨hga1, hex1, hinp1⟩ := addInputs_quiet inputs hin
+  have hgc1 := addInputs_gc inputs hin
+  obtain ⟨u2, s2, hdefs, h3⟩ := run_bind_ok.mp h2
+  obtain ⟨st2, _⟩ := compileDefs_ok (B := (· = r)) [(r, e)] hdefs st1.good
+    (fun p hp => by simp at hp; rw [hp])
+  have hg2 := st2.good
+  obtain ⟨u3, s3, hrem, h4⟩ := run_bind_ok.mp h3
+  obtain ⟨hrg, hrq, hrn⟩ := removeIdentities_run hrem
+  have hrf := removeIdentities_free hrem
+  -- the final `uncompute_all` (analysed below, once the gate list is known)
+  have hfin : (∀ g ∈ s3.qc.gates.toList,
+        (rets.filterMap (dictGet? s3.qc.qmap)).contains g.target = true ∨ s3.qc.free.contains g.target = true) →
+      s.qc.gates = s3.qc.gates ∧ s.qc.numQubits = s3.qc.numQubits ∧ s.qc.qmap = s3.qc.qmap := by
+    intro hall
+    dsimp only at h4
+    rcases run_ite_ok.mp h4 with ⟨_, h4⟩ | ⟨hc, _⟩
+    · obtain ⟨qc, s4, hq, h5⟩ := run_bind_ok.mp h4
+      obtain ⟨rfl, rfl⟩ := getQC_run hq
+      exact uncomputeAll_skip h5 hall
+    · exact absurd hunc hc
+  -- ambient facts for this input
+  have hn1' : s1.qc.numQubits = inputs.length := by rw [hn1]; simp
+  have hnin2 : inputs.length ≤ s2.qc.numQubits := by rw [← hn1']; exact st2.nq_le
+  let σ : BState := initState x s.qc.numQubits
+  let σ0 : FState := toF σ
+  have amb : Amb inputs σ0 r := by
+    refine ⟨hfresh, fun q hq => ?_⟩
+    show (initState x s.qc.numQubits).getD q false = false
+    rw [initState_getD]
+    have : x[q]? = none := by simp; omega
+    simp [List.getD_eq_getElem?_getD, this]
+  have hp1 : Pre inputs (envOf (inputs.zip x)) σ0 s1 := by
+    refine ⟨st1.good, hf1, Nat.le_of_eq hn1'.symm, ⟨?_, ?_, ?_⟩, ?_, ?_⟩
+    · rw [ha1]; intro a ha; cases ha
+    · rw [hf1]; intro a ha; cases ha
+    · rw [hm1]; intro a ha; cases ha
+    · intro i n hi
+      have := hpos hnd (fun m hm => (hfresh m hm).2) i n hi
+      simpa using this
+    · intro i n hi
+      show runF s1.qc.gates.toList σ0 i = _
+      rw [hga1]
+      show (initState x s.qc.numQubits).getD i false = _
+      rw [initState_getD, envOf_zip hnd hi]
+  -- the statement loop
+  unfold compileDefs at hdefs
+  dsimp only at hdefs
+  obtain ⟨iret, t1, he, k1⟩ := run_bind_ok.mp hdefs
+  obtain ⟨u4, t2, hset, k2⟩ := run_bind_ok.mp k1
+  obtain ⟨u5, t3, hmap, k3⟩ := run_bind_ok.mp k2
+  obtain ⟨uncl, t4, hunr, k4⟩ := run_bind_ok.mp k3
+  obtain ⟨u6, t5, hrm, k5⟩ := run_bind_ok.mp k4
+  unfold compileDefs at k5
+  obtain ⟨_, rfl⟩ := run_pure_ok.mp k5
+  obtain ⟨q1, hlt⟩ := exprSpec (B := (· = r)) e none (some r) he st1.good (by intro d hd; cases hd)
+    (by intro y hy; cases hy; rfl)
+  obtain ⟨_, hnm⟩ := topExpr_sem (ρ := envOf (inputs.zip x)) amb hov htl he hp1 hex1 hm1 hinp1
+  obtain ⟨cl0, hge⟩ := topExpr_cl (ρ := envOf (inputs.zip x)) amb hov htl hso he hp1 hex1 hinp1
+  have q2 : Step (· = r) t1 t2 := expqSet_ok hset q1.good hlt
+  obtain ⟨hqc2, _⟩ := expqSet_run hset
+  obtain ⟨q3, hkey⟩ := mapQubit_ok (B := (· = r)) hmap q2.good (Nat.lt_of_lt_of_le hlt q2.nq_le) rfl
+    (by intro hp
+        have : r.startsWith "__" = true := by simpa using hp
+        simp [scratchName, this])
+  obtain ⟨hg3, hm3, _⟩ := mapQubit_run hmap
+  have hgc3 := mapQubit_gc hmap
+  obtain ⟨_, _, _, e3, _⟩ := uncompute_gates hunr
+  obtain ⟨U, x1, x2, x3⟩ := uncompute_exact hunr
+  have hqc5 := expqRemove_run hrm
+  -- the computed gates and their shape
+  have hs1g : s1.qc.gates.toList = [] := by rw [hga1]
+  obtain ⟨new, en, hG⟩ := cl0.ext
+  rw [hs1g, List.nil_append] at en
+  rw [← en] at hG
+  have hcomp : t1.qc.gatesComputed = t1.qc.gates := cl0.comp (by rw [hgc1, hga1])
+  have e31 : t3.qc.gates = t1.qc.gates := by rw [hg3, hqc2]
+  have ec31 : t3.qc.gatesComputed = t1.qc.gates := by rw [hgc3, hqc2, hcomp]
+  have em31 : t3.qc.marked = t1.qc.marked := by rw [hm3, hqc2]
+  rw [ec31, em31] at x2
+  rw [em31] at x3
+  have hs2g : s2.qc.gates.toList = t1.qc.gates.toList ++ U := by rw [hqc5, x1, e31]
+  have hUmem : ∀ g ∈ U, ∃ g' ∈ t1.qc.gates.toList, g'.cls = g.cls ∧ g'.wires = g.wires ∧
+      t1.qc.marked.contains g'.target = true := by
+    intro g hg
+    obtain ⟨g', hg', ec, ew⟩ := mem_of_map_gcore x2 hg
+    obtain ⟨hm1', hm2'⟩ := List.mem_filter.mp hg'
+    exact ⟨g', List.mem_reverse.mp hm1', ec, ew, hm2'⟩
+  have hkey3 : dictGet? s3.qc.qmap r = some iret := by rw [hrq, hqc5, e3]; exact hkey
+  have hfree3 : ∀ m ∈ t1.qc.marked, m ∈ s3.qc.free := by
+    intro m hm; rw [hrf, hqc5]; exact x3 m hm
+  have hmem3 : ∀ g ∈ s3.qc.gates.toList, g ∈ t1.qc.gates.toList ∨ g ∈ U := by
+    intro g hg
+    rw [hrg, hs2g] at hg
+    exact List.mem_append.mp (mem_removeIdentitiesList hg)
+  obtain ⟨f1, f4, f3⟩ := hfin (by
+    intro g hg
+    have tgt : g.target ∈ t1.qc.marked ∨ g.target = iret := by
+      rcases hmem3 g hg with hg | hg
+      · exact (hG g hg).2.2
+      · obtain ⟨g', _, _, ew, hm⟩ := hUmem g hg
+        have : g.target = g'.target := by unfold AGate.target; rw [ew]
+        rw [this]; exact Or.inl (by simpa using hm)
+    rcases tgt with ht | ht
+    · exact Or.inr (by simpa using hfree3 _ ht)
+    · refine Or.inl ?_
+      have : iret ∈ rets.filterMap (dictGet? s3.qc.qmap) := List.mem_filterMap.mpr ⟨r, hr, hkey3⟩
+      rw [ht]; simpa using this)
+  have hN : s.qc.numQubits = s2.qc.numQubits := f4.trans hrn
+  refine ⟨iret, by rw [f3]; exact hkey3, ?_, hge, ?_, ?_⟩
+  · intro p hp
+    rw [f1, hrg, removeIdentitiesList_sound _ (fun g hg => (hg2.gates_ok g hg).2.1)]
+    have hlen : σ.length = s2.qc.numQubits := by
+      rw [← hN]; exact initState_length x _ (by rw [hN, hx]; exact hnin2)
+    have hspec := congrFun (runF_spec s2.qc.gates.toList σ (by
+      intro g hg w hw
+      rw [hlen]
+      exact (hg2.gates_ok g hg).2.2.1 w hw)) p
+    refine hspec.trans ?_
+    rw [hs2g]
+    refine replay_clean inputs.length t1.qc.marked iret t1.qc.gates.toList U σ ?_ ?_ ?_ x2 hnm p hp
+    · intro g hg
+      rw [hlen]
+      exact hg2.gates_ok g (by rw [hs2g]; exact List.mem_append_left _ hg)
+    · intro g hg c hc
+      rcases (hG g hg).1 c hc with h' | h' | h'
+      · exact Or.inl h'
+      · exact Or.inr h'
+      · exact h'.elim
+    · intro g hg
+      exact ⟨(hG g hg).2.1, (hG g hg).2.2⟩
+  · intro hq
+    unfold retNeverControl
+    rw [List.all_eq_true]
+    intro g hg
+    rw [f1] at hg
+    have hno : ∀ g' ∈ t1.qc.gates.toList, iret ∉ g'.wires.dropLast := by
+      intro g' hg' hc
+      rcases (hG g' hg').1 iret hc with h' | h' | h'
+      · omega
+      · exact hnm h'
+      · exact h'.elim
+    have : iret ∉ g.wires.dropLast := by
+      rcases hmem3 g hg with hg | hg
+      · exact hno g hg
+      · obtain ⟨g', hg', _, ew, _⟩ := hUmem g hg
+        rw [← ew]; exact hno g' hg'
+    simp [this]
+  · intro g hg
+    rw [f1] at hg
+    rcases hmem3 g hg with hg | hg
+    · exact (hG g hg).2.1
+    · obtain ⟨g', hg', _, ew, _⟩ := hUmem g hg
+      have : g.target = g'.target := by unfold AGate.target; rw [ew]
+      rw [this]; exact (hG g' hg').2.1
+
 end QV.Compiler
